@@ -378,7 +378,23 @@ def check_variable(ctx, classes):
         woff = mt.size
         for si, seg in enumerate(segs[1:]):
             if not isinstance(seg, ast.Call):
-                ctx.error("C15.V", f"{c.name}.__bytes__: segment {src(seg)[:50]} not understood")
+                # where does the segment object come from?
+                shared = None
+                if isinstance(seg, ast.Name):
+                    for v in A.assigned_names(wb).get(seg.id, []):
+                        if v is None:
+                            continue
+                        for x in ast.walk(v):
+                            if isinstance(x, ast.Attribute) and isinstance(x.value, ast.Name) and x.value.id in ("self", "cls", c.name) and x.attr not in ("values", "address", "type", "subroutine"):
+                                la = repo.lookup_attr(c, x.attr)
+                                if la is not None:
+                                    shared = f"{c.name}.{x.attr}"
+                if shared is not None:
+                    ctx.check("C15.V", f"{c.name}:segment{si + 1}:built-from-this-message-only", False,
+                              f"{c.name}.__bytes__ serialises `{src(seg)}`, an object taken from the class-level container {shared} that outlives the call: "
+                              f"bytes of one message can carry field values written for an earlier message (e.g. an undefined entry keeps a stale integer)", c.loc(wb))
+                else:
+                    ctx.error("C15.V", f"{c.name}.__bytes__: segment {src(seg)[:50]} not understood")
                 break
             # type of the segment
             ftype = seg.func
@@ -512,6 +528,9 @@ SEEDS = [
     dict(id="c15-hdr-skip", file=M, expect="C15.V", construct="ReturnArrayMessage", old="        raw = raw[ReturnArrayMessageHeader.len() :]", new="        raw = raw[MESSAGE_TYPE_BYTES :]"),
     dict(id="c15-len-off", file=M, expect="C15.V", construct="ReturnArrayMessage", old="            length=len(self.values),", new="            length=len(self.values) - 1,"),
     dict(id="c15-sub-offset", file=M, expect="C15.V", construct="SubroutineMessage", old="        return cls(subroutine=raw[MESSAGE_TYPE_BYTES:])", new="        return cls(subroutine=raw[MESSAGE_TYPE_BYTES + 1:])"),
+    dict(id="c15-shared-payload-buffer", file=M, expect="C15.V", construct="built-from-this-message-only",
+         edits=[(M, "    def __bytes__(self):\n        array_type = OptionalInt * len(self.values)\n        payload = array_type(*(OptionalInt(v) for v in self.values))\n",
+                 "    _payloads = {}\n\n    def __bytes__(self):\n        payload = self._payloads.get(len(self.values))\n        if payload is None:\n            payload = (OptionalInt * len(self.values))()\n            self._payloads[len(self.values)] = payload\n        for i, v in enumerate(self.values):\n            if v is not None:\n                payload[i] = OptionalInt(v)\n")]),
     dict(id="c15-optional-mirror", file=E, expect="C15.H", construct="mirror", old="        if self.type == self._NULL_TYPE:\n            return None", new="        if self.type == self._INT_TYPE and self._value == 0:\n            return None"),
     dict(id="c15-disc-same", file=E, expect="C15.H", construct="OptionalInt", old="    _INT_TYPE = 0x01", new="    _INT_TYPE = 0x00"),
 ]
